@@ -172,7 +172,7 @@ def show(e, depth=6):
     if k == "param":
         return "arg%d" % e[1]
     if k == "local":
-        return "_%d" % e[1]
+        return "_"
     if k == "call":
         return "%s(%s)" % (short(e[1]), ", ".join(show(a, d) for a in e[2]))
     if k == "bin":
@@ -203,7 +203,17 @@ def show(e, depth=6):
         return "closure %s[%s]" % (short(e[1]), ", ".join(show(v, d) for v in e[2]))
     if k == "repeat":
         return "[%s; %s]" % (show(e[1], d), e[2])
-    return "%s" % (e,)
+    if k == "cycle":
+        return "↺"
+    if k == "partial":
+        return "{%s := %s}" % ("".join(e[1]), show(e[2], d))
+    if k == "ovf":
+        return "overflowed(%s)" % show(e[1], d)
+    if k == "opaque":
+        return "opaque(%s)" % show(e[1], d)
+    if k == "setdiscr":
+        return "variant=%s" % e[1]
+    return "%s" % (e[0],)
 
 
 def short(path):
@@ -924,22 +934,52 @@ class Program:
         return [f for f in self.fns.values() if f.d.get("closure_of") == fnpath]
 
     # ---- call graph
-    def callees(self, f, cut_traits=()):
-        """Local functions f may transfer control to."""
+    def _local_adts_rx(self):
+        if getattr(self, "_adt_rx", None) is None:
+            names = sorted(self.adts.keys(), key=len, reverse=True)
+            self._adt_rx = re.compile("(?<![A-Za-z0-9_:])(" + "|".join(re.escape(n) for n in names) + ")(?![A-Za-z0-9_])") if names else None
+            by = defaultdict(list)
+            for i in self.impls:
+                if i.get("self_adt") and i.get("self_local") and i.get("trait") and i["trait"] not in self.traits:
+                    by[i["self_adt"]].append(i)
+            self._ext_trait_impls = by
+        return self._adt_rx
+
+    def callees(self, f, cut_traits=(), impl_filter=None):
+        """Local functions f may transfer control to.  Trait-object / generic
+        dispatch on a trait in `cut_traits` is not followed, except to
+        implementors accepted by impl_filter(self_ty, method_path)."""
         out = set()
+        rx = self._local_adts_rx()
         for cs in f.calls(reachable_only=True):
             t = cs.t
             disp = t.get("dispatch")
             if disp == "static" and t.get("resolved_local") and t["resolved"] in self.fns:
                 out.add(t["resolved"])
-            elif t.get("decl_trait") and (disp in ("virtual", "unresolved") or (disp == "static" and not t.get("resolved_local") and False)):
+            elif t.get("decl_trait") and disp in ("virtual", "unresolved"):
                 tr = t["decl_trait"]
-                if tr in cut_traits:
-                    continue
-                for m in self.trait_method_impls(t["decl"]):
-                    out.add(m.path)
+                name = t["decl"].rsplit("::", 1)[-1]
+                for i in self.impls_of(tr):
+                    if tr in cut_traits:
+                        if impl_filter is None or not impl_filter(i.get("self_ty") or "", tr):
+                            continue
+                    ms = [m for m in i["methods"] if m in self.fns]
+                    hit = [m for m in ms if m.rsplit("::", 1)[-1] == name]
+                    # a provided (default) method of an external trait may call any required method
+                    out.update(hit if hit else ms)
+                if t["decl"] in self.fns and tr not in cut_traits:
+                    out.add(t["decl"])
             elif disp == "static" and t.get("decl_local") and t["decl"] in self.fns:
                 out.add(t["decl"])
+            if not t.get("resolved_local") and not t.get("decl_local") and rx is not None:
+                # external generic code may call back into local impls of external traits
+                # for any local type it is instantiated with (Iterator::next, Display::fmt, ...)
+                txt = " ".join(t.get("generic_args", []))
+                for adt in set(rx.findall(txt)):
+                    for i in self._ext_trait_impls.get(adt, []):
+                        for m in i["methods"]:
+                            if m in self.fns:
+                                out.add(m)
         # closures constructed here and function items referenced as values
         rb = f.reachable_blocks()
         for b in f.blocks:
@@ -952,17 +992,23 @@ class Program:
                         out.add(rv["closure"])
                     for op in _rv_operands(rv):
                         c = op.get("const")
-                        if c and c.get("kind") == "fn" and c.get("local") and c["path"] in self.fns:
-                            out.add(c["path"])
+                        if c and c.get("kind") == "fn":
+                            if c.get("local") and c["path"] in self.fns:
+                                out.add(c["path"])
+                            if c.get("resolved_local") and c.get("resolved") in self.fns:
+                                out.add(c["resolved"])
             t = b["term"]
             if t["k"] == "call":
                 for op in t.get("args", []):
                     c = op.get("const")
-                    if c and c.get("kind") == "fn" and c.get("local") and c["path"] in self.fns:
-                        out.add(c["path"])
+                    if c and c.get("kind") == "fn":
+                        if c.get("local") and c["path"] in self.fns:
+                            out.add(c["path"])
+                        if c.get("resolved_local") and c.get("resolved") in self.fns:
+                            out.add(c["resolved"])
         return out
 
-    def cone(self, entries, cut_traits=(), stop=()):
+    def cone(self, entries, cut_traits=(), stop=(), impl_filter=None):
         """Local functions reachable from the entry paths."""
         seen = set()
         q = deque()
@@ -977,7 +1023,7 @@ class Program:
             p = q.popleft()
             if p in stop:
                 continue
-            for c in self.callees(self.fns[p], cut_traits):
+            for c in self.callees(self.fns[p], cut_traits, impl_filter):
                 if c not in seen:
                     seen.add(c)
                     q.append(c)
